@@ -907,7 +907,9 @@ public:
      */
     inline void absorb(const String& str)
     {
-        ::ascon_xofa_absorb(&m_state, str.c_str(), str.length());
+        ::ascon_xofa_absorb
+            (&m_state, reinterpret_cast<const unsigned char *>(str.c_str()),
+             str.length());
     }
 
 #endif /* ARDUINO */
